@@ -90,6 +90,7 @@ type fileResult struct {
 	out     []byte
 	used    map[string]bool // sync/atomic functions called
 	points  int             // schedule points inserted
+	resets  []string        // assignments that restore package-level variables to their initial values
 }
 
 func fail(format string, a ...any) {
@@ -127,6 +128,7 @@ func main() {
 	used := map[string]bool{}
 	pkgName := ""
 	points := 0
+	var resets []string
 	var names []string
 	for _, e := range ents {
 		n := e.Name()
@@ -153,6 +155,7 @@ func main() {
 		for k := range r.used {
 			used[k] = true
 		}
+		resets = append(resets, r.resets...)
 		points += r.points
 		if !r.changed {
 			continue
@@ -167,7 +170,7 @@ func main() {
 		fail("%s: nothing to instrument (no sync/atomic call, channel statement or non-blocking select found)", pkgDir)
 	}
 	shim := filepath.Join(outdir, "zz_verif_sched.go")
-	if err := os.WriteFile(shim, []byte(shimSource(pkgName, used)), 0o644); err != nil {
+	if err := os.WriteFile(shim, []byte(shimSource(pkgName, used, resets)), 0o644); err != nil {
 		fail("%v", err)
 	}
 	replace[filepath.Join(pkgDir, "zz_verif_sched.go")] = shim
@@ -193,6 +196,71 @@ func instrumentFile(name string, src []byte) (*fileResult, string, error) {
 	bad := func(n ast.Node, format string, a ...any) {
 		if firstErr == nil {
 			firstErr = fmt.Errorf("%s: %s", at(n), fmt.Sprintf(format, a...))
+		}
+	}
+
+	// Package-level variables with an initialiser are state that outlives the
+	// objects a harness creates per execution (a channel shared by all
+	// instances, a free list, a counter). The shim gets VerifResetGlobals, which
+	// assigns every initialiser again, so that each explored execution starts
+	// from the same state. An initialiser that mentions an imported package
+	// cannot be repeated in the shim file (its imports are not there): fine for a
+	// value without identity, an error if it makes a channel.
+	imported := map[string]bool{}
+	for _, im := range f.Imports {
+		p, _ := strconv.Unquote(im.Path.Value)
+		n := p[strings.LastIndex(p, "/")+1:]
+		if im.Name != nil {
+			n = im.Name.Name
+		}
+		imported[n] = true
+	}
+	for _, d := range f.Decls {
+		gd, ok := d.(*ast.GenDecl)
+		if !ok || gd.Tok != token.VAR {
+			continue
+		}
+		for _, spc := range gd.Specs {
+			vs := spc.(*ast.ValueSpec)
+			if len(vs.Values) == 0 {
+				continue
+			}
+			usesImport, makesChan := false, false
+			for _, v := range vs.Values {
+				ast.Inspect(v, func(n ast.Node) bool {
+					switch x := n.(type) {
+					case *ast.SelectorExpr:
+						if id, ok := x.X.(*ast.Ident); ok && imported[id.Name] && id.Obj == nil {
+							usesImport = true
+						}
+					case *ast.ChanType:
+						makesChan = true
+					}
+					return true
+				})
+			}
+			if usesImport {
+				if makesChan {
+					bad(vs, "package-level variable whose initialiser makes a channel and mentions an imported package: cannot be reset between executions")
+				}
+				continue
+			}
+			var ls, rs []string
+			for _, n := range vs.Names {
+				ls = append(ls, n.Name)
+			}
+			for _, v := range vs.Values {
+				rs = append(rs, text(v))
+			}
+			blank := true
+			for _, l := range ls {
+				if l != "_" {
+					blank = false
+				}
+			}
+			if !blank {
+				res.resets = append(res.resets, strings.Join(ls, ", ")+" = "+strings.Join(rs, ", "))
+			}
 		}
 	}
 
@@ -404,7 +472,7 @@ func instrumentFile(name string, src []byte) (*fileResult, string, error) {
 	return res, f.Name.Name, nil
 }
 
-func shimSource(pkg string, used map[string]bool) string {
+func shimSource(pkg string, used map[string]bool, resets []string) string {
 	var b strings.Builder
 	needUnsafe := false
 	var fns []string
@@ -425,6 +493,11 @@ func shimSource(pkg string, used map[string]bool) string {
 		}
 		fmt.Fprintf(&b, ")\n\n")
 	}
+	fmt.Fprintf(&b, "// VerifResetGlobals assigns every package-level variable its initialiser again\n// (state that would otherwise leak from one explored execution into the next).\nfunc VerifResetGlobals() {\n")
+	for _, r := range resets {
+		fmt.Fprintf(&b, "\t%s\n", r)
+	}
+	fmt.Fprintf(&b, "}\n\n")
 	b.WriteString(`// VerifYield, when set, is called immediately before every atomic operation and
 // every non-blocking select of this package. nil = the code behaves as written.
 var VerifYield func()
